@@ -47,7 +47,8 @@ CHECKS = {
          "each target spelled as declared or differently, and must refute them on three defective mechanisms (registry keyed by name "
          "only, by spelling, re-append loop). Every state of the generation configurations (every script prefix) is rendered to DDL "
          "with seeded identifier spellings (plain, UPPER, double-quoted, [bracketed], backticked) and parsed by the real library; the "
-         "projected result (columns, alter sections, index records of every table, or the raised error) must equal the state TLC computed.",
+         "projected result (columns, alter sections, index records of every table, or the raised error) must equal the state TLC computed."
+         ' Statements are also written over several lines with statement-opener words as column names; the referenced table of ALTER foreign keys is projected for every column; a table created LIKE the altered one stands by as an entity that must stay untouched; the ALTER kinds are replayed in other output modes.',
     note="Bounded scripts (<=4 statements exhaustive); spellings sampled per seed; column matching of ADD UNIQUE / DEFAULT FOR judged "
          "for the declared spelling only; TLC, PLY, CPython trusted.",
     design="DESIGN.md 3.6, 4 (C04)", technique=TECH + " (Registry.tla)"),
@@ -66,7 +67,8 @@ CHECKS = {
          "of every subset of the core option groups {NULL|NOT NULL, DEFAULT, PRIMARY KEY, UNIQUE, REFERENCES} on a focus column at "
          "position 1..3(4) for every type form, and must refute them on defective folds. Every complete behaviour of the generation "
          "configurations (option orders x type forms x default forms x position) is rendered to CREATE TABLE (alone or between two "
-         "other tables) and parsed by the real library: the reported column list must equal the observable TLC computed.",
+         "other tables) and parsed by the real library: the reported column list must equal the observable TLC computed."
+         ' Every other output mode gets a slice of the behaviours; column names are drawn from six pools (plain, keyword-prefixed, case-colliding, keyword-shaped, statement-opener words) and the table may be declared a second time with IF NOT EXISTS.',
     note="Bounded (<=4-5 options, <=4 columns); type/default/reference forms are pool representatives; TLC, PLY, CPython trusted.",
     design="DESIGN.md 3.4, 4 (C01)", technique=TECH + " (TableFold.tla)"),
  "C02": dict(
@@ -75,7 +77,8 @@ CHECKS = {
          "columns, any position among the columns) combined with inline PRIMARY KEY / UNIQUE / REFERENCES, including the separate "
          "__post_init__ step, and must refute them on three defective folds. Complete behaviours (incl. all referential-action forms) "
          "are rendered and parsed by the real library; keys, non-nullability of key columns, unique flags, named constraints, checks "
-         "and references must equal the contract observable. Deviations TLC itself reaches (Dev tags) are KNOWN-FINDINGs when listed.",
+         "and references must equal the contract observable. Deviations TLC itself reaches (Dev tags) are KNOWN-FINDINGs when listed."
+         ' Every other output mode gets a slice of the behaviours (keys, nullability and flags do not depend on the dialect class).',
     note="Unique flag of the sole column of a NAMED single-column UNIQUE not judged (left open by the property); bounded tables; "
          "TLC, PLY, CPython trusted.",
     design="DESIGN.md 3.4, 4 (C02)", technique=TECH + " (TableFold.tla)"),
@@ -85,7 +88,8 @@ CHECKS = {
          "3-statement scripts with a table whose columns are named like sequence keywords and further sequences, and must refute "
          "SeqModeLocal when the flag is not reset per statement. Every complete behaviour is rendered (keyword case, quoted names, "
          "values incl. negative, 2^31, 2^63-1, -2^63 by seed) and parsed by the real library; every sequence entity must equal, key for "
-         "key and type for type (True is not 1), what TLC computed, and the neighbouring table keeps its keyword-named columns.",
+         "key and type for type (True is not 1), what TLC computed, and the neighbouring table keeps its keyword-named columns."
+         ' Option-word names after a schema dot, terminator / option layouts over several lines, every other output mode, CRLF scripts, and two live parser objects on scripts mixing sequences and tables.',
     note="Values and names are pool representatives; TLC, PLY, CPython trusted.",
     design="DESIGN.md 3.5, 4 (C17)", technique=TECH + " (Entities.tla)"),
  "C18": dict(
@@ -94,7 +98,8 @@ CHECKS = {
          "DATABASE, [BIGFILE|SMALLFILE] [TEMPORARY] TABLESPACE, a table using the types) interleaved with sequences. Every complete "
          "behaviour is rendered and parsed by the real library: one entity per declaration, in order, of the declared kind, carrying the "
          "expected schema / name / base type / values / attributes / authorization / comment / kind / temporary; type names verbatim "
-         "in the using table. Forms on which the pinned tree deviates are KNOWN-FINDINGs.",
+         "in the using table. Forms on which the pinned tree deviates are KNOWN-FINDINGs."
+         " 39 catalogue forms incl. literals holding ';' and keyword-prefixed names declared and used; every other output mode (bigquery: dataset) and CRLF renderings.",
     note="Declaration forms are a hand-written catalogue (expected fields from the property text); TLC, PLY, CPython trusted.",
     design="DESIGN.md 3.5, 4 (C18)", technique=TECH + " (Entities.tla)"),
  "C11": dict(
@@ -103,7 +108,8 @@ CHECKS = {
          "Redshift, Snowflake, MSSQL, BigQuery, PostgreSQL, Spark, DB2) x {owning mode, default mode}, and must refute them on the "
          "overwrite and swallow variants. Every shown behaviour is rendered and parsed by the real library in the mode TLC chose: the "
          "body must equal the clause-free body, each clause key must hold the catalogue value at the placement (top level / "
-         "table_properties) TLC computed, and no other key may appear.",
+         "table_properties) TLC computed, and no other key may appear."
+         " The catalogue holds 92 clauses incl. alternative keyword values, special literal values (';', TAB, '|', numbers), repeated list elements and equal values across clauses; the table name is unqualified or schema-qualified.",
     note="Clause texts, values and placements are a catalogue frozen from the pinned tree and reviewed against the property's list; "
          "clauses are combined within one dialect; TLC, PLY, CPython trusted.",
     design="DESIGN.md 3.4, 4 (C11)", technique=TECH + " (Clauses.tla)"),
@@ -115,7 +121,8 @@ CHECKS = {
          "regression-corpus script is parsed in the default and the other modes (x group_by_type x normalize_names): no mode may raise "
          "where the default does not, the entity sequence and each table's common projection (schema<->dataset at every depth, common "
          "column attributes, index without `clustered`) must equal the default mode's, and every non-common top-level table key must "
-         "be documented for that mode.",
+         "be documented for that mode."
+         ' Hand scripts (re-created tables with kind prefixes, comment styles, numeric terminators, db..t names) x modes; a mode may not change the kind of failure of a script that fails in the default mode.',
     note="Documented modes per field = frozen table harness/mode_fields.json (field metadata of the pinned tree); quick tier samples "
          "modes and behaviours, thorough uses all 15 x flags; TLC, PLY, CPython trusted.",
     design="DESIGN.md 3.6, 4 (C10)", technique=TECH + " (Clauses.tla, Registry.tla, TableFold.tla, Entities.tla)"),
@@ -125,7 +132,8 @@ CHECKS = {
          "scripts, entity scripts, dialect clauses) and the regression corpus are parsed by the real library in the output modes x "
          "normalize_names x group_by_type, and EVERY returned result is validated against the documented shape (entity dicts, table "
          "keys incl. schema/dataset, list/dict types, column keys, boolean unique/nullable, primary key names among the columns, "
-         "always-present buckets), must be JSON-serialisable, and run(json_dump=True) must be exactly json.dumps(run()).",
+         "always-present buckets), must be JSON-serialisable, and run(json_dump=True) must be exactly json.dumps(run())."
+         ' Column-less table entries, a default-literal x size-form cross, delimited and compact scripts, every key-clause spelling x direction form, in every mode x flag; under normalize_names key names must be column names exactly.',
     note="Shape validation of replayed results (the specification supplies the inputs and the record shapes); primary-key membership "
          "judged on generated, well-formed tables only; quick tier samples modes/flags; TLC, PLY, CPython trusted.",
     design="DESIGN.md 4 (C12)", technique=TECH + " (TableFold.tla, Registry.tla, Entities.tla, Clauses.tla)"),
@@ -136,7 +144,8 @@ CHECKS = {
          "extension rule. Every state of the generation configuration is replayed in a scratch directory through the real "
          "parse_from_file (file encodings and parser settings by seed), cli.main() (-t, -o, -v, --no-dump) and, in the thorough "
          "tier, a fresh interpreter: returned / printed results must equal the in-memory API, and the files on disk must be exactly "
-         "those of the TLC state, each the JSON of the API result.",
+         "those of the TLC state, each the JSON of the API result."
+         ' File names with spaces / punctuation, same-stem overwrites, splitlines()-only characters, unsupported statements in the content, grouped dumps (the dump holds what the call returned), parser_settings untouched, created directories count as writes.',
     note="Scratch dirs under the system temp dir (removed); quick tier samples two-operation histories; TLC, CPython trusted.",
     design="DESIGN.md 3.8, 4 (C19)", technique=TECH + " (EntryPoints.tla)"),
  "C03": dict(
@@ -180,7 +189,8 @@ CHECKS = {
          "when the name-position guard is removed. Replay: every behaviour through the real lexer (types and flags); every identifier "
          "form (lower, Mixed, UPPER, double-quoted, backticked, bracketed) in 26 naming positions and all 87 non-excluded grammar keywords as "
          "column names in 3 positions through the API: names verbatim, and normalize_names=True equal to the plain output with exactly one "
-         "outer delimiter pair stripped from every identifier.",
+         "outer delimiter pair stripped from every identifier."
+         " Identifiers containing '#', keyword-prefixed names in every position, keyword-shaped schema / table / constraint names of ALTER statements, compact and line-start column positions, and normalize_names given through parse_from_file(parser_settings=..) are covered.",
     note="One representative identifier per form; naming positions are a statement catalogue; TLC, PLY, CPython trusted.",
     design="DESIGN.md 3.3, 4 (C06), Appendix B", technique=TECH + " (Lexer.tla)"),
  "C09": dict(
@@ -189,7 +199,8 @@ CHECKS = {
          "TypeStartsLT must be refuted exactly on the spellings whose first word contains `>` (recorded deviation). Replay: every template "
          "through the real lexer; every spelling and the size / array-suffix / two-word forms at column position 1..3 with following "
          "options through the API: one balanced type string equal to the spelling up to white space, the size where given, options kept, "
-         "both neighbours intact.",
+         "both neighbours intact."
+         ' Sized / unsized bases x suffixes (array brackets, ARRAY, second type word), unit sizes, delimited STRUCT field names, nested-type neighbours around a sized column; non-nested type text is compared word for word.',
     note="Base types STRING / INT; quick tier uses a width-limited type set; TLC, PLY, CPython trusted.",
     design="DESIGN.md 3.3, 4 (C09)", technique=TECH + " (Lexer.tla)"),
  "C05": dict(
@@ -198,7 +209,8 @@ CHECKS = {
          "line, none} x token boundary and case {lower, mixed} x keyword, from all-upper and all-lower / all-mixed bases, for 14 statement "
          "skeletons of the four families (CREATE TABLE incl. dialect clauses, 8 ALTER kinds, CREATE INDEX, CREATE SEQUENCE). Every layout is "
          "rendered and parsed by the real library: the result must equal the canonical rendering's. Corpus scripts are re-laid-out whole "
-         "(LF->CRLF, blank lines, tabs). Layouts TLC tags as deviations (line break directly before a literal) are KNOWN-FINDINGs.",
+         "(LF->CRLF, blank lines, tabs). Layouts TLC tags as deviations (line break directly before a literal) are KNOWN-FINDINGs."
+         ' An absolute leg checks that every mixed-case identifier, type name and value of hand scripts is reported in the letter case written, under three keyword-case styles.',
     note="The pre-processor's regular expressions are not transcribed: the specification states the intended scanner and the enumeration "
          "finds the departures; quick tier samples two-choice layouts; TLC, PLY, CPython trusted.",
     design="DESIGN.md 3.7, 4 (C05)", technique=TECH + " (Scanner.tla)"),
@@ -208,7 +220,8 @@ CHECKS = {
          "quote, keyword-shaped words, punctuation). Every class string is concretised with representatives drawn by seed and written in "
          "five literal positions (DEFAULT, COMMENT, CHECK operand, ENUM value, string table option); the real library must report exactly the "
          "characters between and including the quotes. Numeric defaults of 1..20 digits must come back as equal integers. Classes on which "
-         "the regex pre-processor departs are deviations TLC tags from the literal alone: KNOWN-FINDINGs when listed.",
+         "the regex pre-processor departs are deviations TLC tags from the literal alone: KNOWN-FINDINGs when listed."
+         ' Twenty-two literal positions (incl. list elements: inline ENUM, CHECK IN, parenthesised DEFAULT, TBLPROPERTIES, Snowflake options; literal-then-RENAME) and a second exhaustive enumeration over a focus alphabet with longer strings.',
     note="Fidelity per character is as good as the class representatives; the pre-processor is not transcribed; TLC, PLY, CPython trusted.",
     design="DESIGN.md 3.7, 4 (C07)", technique=TECH + " (Scanner.tla)"),
 }
